@@ -277,46 +277,7 @@ func runC20(c *core.Ctx, o Options) {
 	// serialized again by the resend path under DefaultHandler.mu only; re-stamping the same object from a timer goroutine
 	// (under Session.mu) races with that read. Rule: a send inside a loop takes a message whose Build()/New() is inside the same loop.
 	if s := newSess(c); s != nil {
-		nFresh := 0
-		for _, fn := range s.allFuncs() {
-			lps := loops(fn)
-			an.AllInstrs(fn, func(in ssa.Instruction) {
-				call, ok := in.(*ssa.Call)
-				if !ok {
-					return
-				}
-				cal := an.StaticCallee(&call.Call)
-				if cal == nil || !s.isSendPrimitive(cal) {
-					return
-				}
-				var lp []*ssa.BasicBlock
-				for _, l := range lps {
-					for _, b := range l {
-						if b == call.Block() {
-							lp = l
-						}
-					}
-				}
-				if lp == nil {
-					return
-				}
-				nFresh++
-				root := chainRoot(an.Unwrap(call.Call.Args[1]))
-				inLp := false
-				if ri, ok := root.(ssa.Instruction); ok {
-					for _, b := range lp {
-						if b == ri.Block() {
-							inLp = true
-						}
-					}
-				}
-				rc, isCall := root.(*ssa.Call)
-				okBuild := isCall && rc.Call.IsInvoke() && (rc.Call.Method.Name() == "Build" || rc.Call.Method.Name() == "New")
-				c.Check(inLp && okBuild, "fresh-message", fn.Name(), "each iteration sends a newly built message", call.Pos(), "Build() inside the loop",
-					"the message sent in this loop is built outside it ("+an.Render(root)+"): the same object is stored for retransmission and re-stamped on the next iteration, unsynchronised with the resend path that serializes it")
-			})
-		}
-		c.Check(nFresh >= 2, "fresh-message", "", "sends inside loops found", token.NoPos, fmt.Sprint(nFresh), "fewer looped sends than the two timer goroutines")
+		checkFreshMessages(c, s, "fresh-message")
 	}
 	c.Extra["functions"] = len(fns)
 	c.Extra["guarded_accesses"] = nAcc
@@ -357,4 +318,49 @@ func countStores(fn *ssa.Function) int {
 		}
 	})
 	return n
+}
+
+// checkFreshMessages: a message handed to a send primitive inside a loop is built (Build()/New()) inside the same loop — every
+// message object is sent once, so what the store retains under a number is never re-stamped by a later send.
+func checkFreshMessages(c *core.Ctx, s *sess, rule string) {
+	nFresh := 0
+	for _, fn := range s.allFuncs() {
+		lps := loops(fn)
+		an.AllInstrs(fn, func(in ssa.Instruction) {
+			call, ok := in.(*ssa.Call)
+			if !ok {
+				return
+			}
+			cal := an.StaticCallee(&call.Call)
+			if cal == nil || !s.isSendPrimitive(cal) {
+				return
+			}
+			var lp []*ssa.BasicBlock
+			for _, l := range lps {
+				for _, b := range l {
+					if b == call.Block() {
+						lp = l
+					}
+				}
+			}
+			if lp == nil {
+				return
+			}
+			nFresh++
+			root := chainRoot(an.Unwrap(call.Call.Args[1]))
+			inLp := false
+			if ri, ok := root.(ssa.Instruction); ok {
+				for _, b := range lp {
+					if b == ri.Block() {
+						inLp = true
+					}
+				}
+			}
+			rc, isCall := root.(*ssa.Call)
+			okBuild := isCall && rc.Call.IsInvoke() && (rc.Call.Method.Name() == "Build" || rc.Call.Method.Name() == "New")
+			c.Check(inLp && okBuild, rule, fn.Name(), "each iteration sends a newly built message", call.Pos(), "Build() inside the loop",
+				"the message sent in this loop is built outside it ("+an.Render(root)+"): the same object is stored for retransmission and re-stamped on the next iteration, unsynchronised with the resend path that serializes it")
+		})
+	}
+	c.Check(nFresh >= 2, rule, "", "sends inside loops found", token.NoPos, fmt.Sprint(nFresh), "fewer looped sends than the two timer goroutines")
 }
